@@ -16,9 +16,10 @@ type realisation struct {
 
 var kleeneFamilies = map[string][]realisation{
 	"T": {{`1 == 1`, ""}, {`exists($)`, ""}, {`"ab" starts with "a"`, ""}, {`"ab" like_regex "^a"`, ""}, {`(1 == 1) && (2 == 2)`, ""},
-		{`(1 == "a") is unknown`, ""}, {`!(1 == 2)`, ""}, {`$.a == 1`, ""}, {`exists($.a)`, ""}, {`(1 == 2) || (1 == 1)`, ""}},
+		{`(1 == "a") is unknown`, ""}, {`!(1 == 2)`, ""}, {`$.a == 1`, ""}, {`exists($.a)`, ""}, {`(1 == 2) || (1 == 1)`, ""},
+		{`exists($.l[0 to 1] ? (@ > 1))`, ""}, {`exists($.m[0, 1] ? (@ > 1))`, ""}, {`exists($.l[1, 0] ? (@ > 1))`, ""}, {`exists($.keyvalue() ? (@.key == "a"))`, ""}},
 	"F": {{`1 == 2`, ""}, {`exists($ ? (1 == 2))`, ""}, {`"ab" starts with "b"`, ""}, {`"ab" like_regex "^b"`, ""}, {`(1 == 1) && (1 == 2)`, ""},
-		{`(1 == 1) is unknown`, ""}, {`!(1 == 1)`, ""}, {`$.a == 2`, ""}, {`exists($.zz)`, "lax"}, {`(1 == 2) || (2 == 1)`, ""}},
+		{`(1 == 1) is unknown`, ""}, {`!(1 == 1)`, ""}, {`$.a == 2`, ""}, {`exists($.zz)`, "lax"}, {`(1 == 2) || (2 == 1)`, ""}, {`exists($.l[0 to 1] ? (@ > 9))`, ""}, {`exists($.keyvalue() ? (@.key == "zz"))`, ""}},
 	"U": {{`1 == "a"`, ""}, {`1 starts with "a"`, ""}, {`1 like_regex "a"`, ""}, {`exists(1 / 0)`, ""}, {`(1 / 0) == 1`, ""}, {`!(1 == "a")`, ""},
 		{`exists($.zz)`, "strict"}, {`$.zz == 1`, "strict"}, {`(1 == "a") && (1 == 1)`, ""}, {`(1 == "a") || (1 == 2)`, ""}, {`$.a.zz == 1`, "strict"},
 		{`$.s > 1`, ""}, {`$ == $`, ""}},
@@ -26,7 +27,7 @@ var kleeneFamilies = map[string][]realisation{
 		{`!($missing == 1)`, ""}, {`(1 == 1) && ($missing == 1)`, ""}, {`(1 == 2) || ($missing == 1)`, ""}, {`$[$missing] == 1`, "lax"}},
 }
 
-const c11Doc = `{"a":1,"s":"a"}`
+const c11Doc = `{"a":1,"s":"a","l":[5,1],"m":[1,5]}`
 
 func kleeneAnd(a, b string) string {
 	switch {
